@@ -451,6 +451,7 @@ func sliceIdentity(m *openfgav1.AuthorizationModel) []*openfgav1.TypeDefinition 
 }
 
 var recycledWGModel = &openfgav1.AuthorizationModel{}
+var previousWGModel *openfgav1.AuthorizationModel
 
 func wgReplay(args []string) error {
 	fs := flag.NewFlagSet("wg-replay", flag.ExitOnError)
@@ -524,12 +525,19 @@ func wgReplay(args []string) error {
 			}
 		}
 		// a caller that re-uses ONE message value for model after model (proto.Reset ; proto.Merge): the identity of the message is
-		// not the identity of the model - whatever the previous model left behind under that pointer must not be used
+		// not the identity of the model - whatever the previous model left behind under that pointer must not be used. The previous
+		// model of this run and this one are built back to back through the same message, nothing else in between.
 		for i := 0; i < 2; i++ {
+			if previousWGModel != nil {
+				proto.Reset(recycledWGModel)
+				proto.Merge(recycledWGModel, previousWGModel)
+				buildWG(recycledWGModel, nil)
+			}
 			proto.Reset(recycledWGModel)
 			proto.Merge(recycledWGModel, before)
 			record(buildWG(recycledWGModel, nil).outcome)
 		}
+		previousWGModel = before
 		// the same model shaped the way API clients write it (metadata entries only for relations with a direct assignment):
 		// structure and weights do not depend on that
 		apiAbs := *inp.M
